@@ -89,6 +89,11 @@ def apply_event(t, ev, model, n_in):
         elif k == 'edit_out':
             t.outputs[0].value -= 1
             _mod(model)
+        elif k == 'edit_version':
+            # the version is kept twice (bytes and int); a caller changing the serialised copy alone must see digests
+            # follow the bytes that raw() writes (event used by C01 only)
+            t.version = b'\x00\x00\x00\x02'
+            _mod(model)
         elif k == 'shuffle_out':
             with wharness.ForcedRandom(None, None, 'reverse'):
                 t.shuffle_outputs()
